@@ -1,7 +1,7 @@
 (* C06 property theorems.  Nothing but statements closed by `exact`, a pin, and
    Print Assumptions.  The driver parses this file's output. *)
 From ZV.Common Require Import Base.
-From ZV.C06 Require Import Model Spec ProofsBasic.
+From ZV.C06 Require Import Model Spec ProofsBasic ProofsScan ProofsRefine.
 Open Scope N_scope.
 
 (* normalize_hash never produces a slot marker, whatever the hasher returned *)
@@ -9,3 +9,46 @@ Theorem norm_avoids_markers : forall x, norm x <> 0 /\ norm x <> MAXH.
 Proof. exact norm_avoids_markers_proof. Qed.
 Check norm_avoids_markers : forall x, norm x <> 0 /\ norm x <> MAXH.
 Print Assumptions norm_avoids_markers.
+
+(* The property for ZiporaHashMap's standard storage: for EVERY hasher h (any function, including
+   ones that return 0, u64::MAX or a constant), every power-of-two initial capacity and EVERY
+   history of insert/remove/get/get_mut/contains_key/len/iter/clear, the model of the code gives
+   the answers of a mathematical map - across lazy sizing, tombstones, growth and clear. *)
+Theorem std_refines_map :
+  forall (h : N -> N) (c : N) (ops : list op),
+    pow2cap c -> Forall2 obs_agree (run h (init c) ops) (srun [] ops).
+Proof. exact std_refines_map_proof. Qed.
+Check std_refines_map :
+  forall (h : N -> N) (c : N) (ops : list op),
+    pow2cap c -> Forall2 obs_agree (run h (init c) ops) (srun [] ops).
+Print Assumptions std_refines_map.
+
+(* remove_standard's probe loop (no tombstone branch) finds exactly what get_standard's finds *)
+Theorem remove_loop_is_get_loop :
+  forall H K, H <> 0 /\ H <> MAXH -> forall es ps, scan_rm es H K ps = scan es H K ps.
+Proof. exact scan_rm_scan. Qed.
+Check remove_loop_is_get_loop :
+  forall H K, H <> 0 /\ H <> MAXH -> forall es ps, scan_rm es H K ps = scan es H K ps.
+Print Assumptions remove_loop_is_get_loop.
+
+(* --- the code before the fix: commits does not have the property (regression witnesses) --- *)
+Theorem sentinel_unmapped_refuted : exists h ops, run_old h (init 16) ops <> srun [] ops.
+Proof. exact sentinel_unmapped_refuted_proof. Qed.
+Check sentinel_unmapped_refuted : exists h ops, run_old h (init 16) ops <> srun [] ops.
+Print Assumptions sentinel_unmapped_refuted.
+
+Theorem tombstone_first_slot_refuted : exists ops, run_old (hasher 1) (init 16) ops <> srun [] ops.
+Proof. exact tombstone_first_slot_refuted_proof. Qed.
+Check tombstone_first_slot_refuted : exists ops, run_old (hasher 1) (init 16) ops <> srun [] ops.
+Print Assumptions tombstone_first_slot_refuted.
+
+Theorem iter_tombstone_refuted : exists ops, run_old (hasher 1) (init 16) ops <> srun [] ops.
+Proof. exact iter_tombstone_refuted_proof. Qed.
+Check iter_tombstone_refuted : exists ops, run_old (hasher 1) (init 16) ops <> srun [] ops.
+Print Assumptions iter_tombstone_refuted.
+
+(* --- finding stub_storage_strategy: the three unimplemented storage strategies --- *)
+Theorem stub_refuted : exists ops, stub_run ops <> srun [] ops.
+Proof. exact stub_refuted_proof. Qed.
+Check stub_refuted : exists ops, stub_run ops <> srun [] ops.
+Print Assumptions stub_refuted.
